@@ -30,6 +30,9 @@ fn var(v: &V) -> Option<Value> {
         V::Unary(_, i) => {
             let (id, sfx) = ident(i);
             let full = format!("{}{}", id, sfx);
+            if full == "INKEY$" {
+                return Some(json!({"k":"call","f":"INKEY$","args":[]}));
+            }
             if BUILTINS.contains(&full.as_str()) {
                 // a reserved name without arguments: outside the model
                 return None;
